@@ -6,12 +6,64 @@ import json, os, sys
 V = os.path.dirname(os.path.dirname(os.path.abspath(__file__)))
 
 # id -> (level, technique, level text, level note, design ref)
+SIM = "deterministic simulation (own seeded simulator: choice tape -> explicit scenario -> real lzma-rs behind simulated source/sink/caller), "
+TB = "Trusted: the reference LZ model / transparent encoder / reference decoder / XZ writer in sim/src/refmodel (cross-checked against liblzma in both directions before every run) and the SimSource/SimSink/caller stubs. Sampling over inputs: a clean batch is evidence, not proof."
+
 CLAIMED = {
- "C12": ("fault_enumeration",
-         "deterministic simulation: seeded inputs x scripted source/sink, one I/O fault injected at every call index (fault enumeration), oracle = reference model prefix check + fired-fault-implies-Err",
-         "Every entry point (3 decoders, Stream, 2 raw decoders, 3 encoders) runs real code against a simulated source and sink; a fault-free pilot counts the calls, then a fault of a rotating kind (Other, WouldBlock, UnexpectedEof, EINTR, write-zero, disk-full, failing flush) is injected at each call index (all indices in the thorough tier, a sample in quick). Sampling over inputs, enumeration over fault positions per input: evidence, not proof.",
-         "Trusted: the reference LZ model/encoder (cross-checked against liblzma on every run), the SimSource/SimSink stubs. Encoder expected output is the encoder's own fault-free output.",
-         "DESIGN.md section 4, C12"),
+ "C01": ("exploration", SIM + "fault-free control arm: seeded symbol programs x lc/lp/pb x dictionary sizes x benign I/O scripts, compared online with a reference LZ model; metamorphic second dictionary size",
+         "Pure property (no fault or schedule decides it): claimed only as the simulator's fault-free control arm, the weakest thing this family does. Real decoder output is compared byte by byte with the LZ model for reference-encoded programs over all 225 lc/lp/pb, dictionary header values incl. <4096, raw dictionaries 1..4095, laps of the circular window, both terminations and all three header options.",
+         TB, "DESIGN.md section 4, C01"),
+ "C02": ("exploration", SIM + "fault-free control arm: seeded LZMA2 chunk plans (all reset classes, property changes, cross-chunk matches, size extremes) vs reference LZ model",
+         "Pure property: control arm only. Reference-built LZMA2 streams with every control class and ordering xz accepts are decoded through lzma2_decompress, raw::Lzma2Decoder and inside .xz; output compared online with the model.",
+         TB, "DESIGN.md section 4, C02"),
+ "C03": ("exploration", SIM + "fault-free control arm: seeded XZ container plans (blocks, checks, optional fields, paddings) vs concatenated block models",
+         "Pure property: control arm only. Reference-built single-stream files within the supported subset must decode to the concatenation of the block models.",
+         TB + " VLIs of 5-9 bytes are not exercised in accepted files.", "DESIGN.md section 4, C03"),
+ "C04": ("exploration", SIM + "seeded plaintexts x encoder options x reader fragmentation scripts; oracle = three independent decoders (lzma-rs, reference decoder, liblzma)",
+         "The reader-fragmentation clause is a native simulation target (source scripts incl. a real BufReader over short reads); the rest is sampled. Every emitted stream must decode to the input with lzma-rs (matching option), the strict reference decoder/parser and liblzma.",
+         TB, "DESIGN.md section 4, C04"),
+ "C05": ("exploration", SIM + "history exploration: seeded inputs x decode options x compositions into write calls (adversarial cuts from the reference trace), Stream vs one-shot differential; all 1-cut/2-cut compositions enumerated for short inputs",
+         "Native target: the property quantifies over call histories. Stream's verdict and bytes are compared with the one-shot decoder for valid, adversarial (9-12 byte symbols), corrupted and random inputs under seeded histories, with exhaustive 1-/2-cut compositions on a sample of short inputs.",
+         "Oracle is the one-shot decoder itself (C01/C08 cover it). " + TB, "DESIGN.md section 4, C05"),
+ "C06": ("fault_enumeration", SIM + "stored-data fault enumeration: every bit flip, every truncation point, every integrity/size field substituted with enclosing CRCs recomputed; oracle = field-exact XZ judge + original bytes; both arithmetic profiles",
+         "Native target (stored-data faults). Per seeded file the thorough tier enumerates all bit positions, all truncation points and the whole field x value table; success obliges the independent field-exact judge to confirm every listed field and, for CRC32/CRC64 files, byte-identical output.",
+         TB + " The judge does no range decoding; unjudgeable framings are counted, not alarmed.", "DESIGN.md section 4, C06"),
+ "C07": ("exploration", SIM + "seeded arbitrary/mutated/near-valid inputs x every decoding entry point x call histories x two arithmetic builds; monitors: catch_unwind, metering allocator vs reference production, no-progress supervisor",
+         "Random, mutated and grammar-generated near-valid inputs drive every decoding entry point (Stream under histories that keep calling after errors; raw decoders with any accepted parameters) in an overflow-checked and a wrapping build; a panic, a heap peak out of proportion to consumed+produced bytes, or a stalled run is a violation.",
+         TB + " Real allocation failure is not simulated. 64-bit only.", "DESIGN.md section 4, C07"),
+ "C08": ("exploration", SIM + "seeded streams x option combinations x header/supplied size values x tail truncation/extension; rules computed by the reference decoder on the same bytes",
+         "Partly a simulation target (truncation = the producer died; Stream histories). Size-in-effect rules, overshoot, early marker, input running out (one-byte band) and bytes after the marker are computed by the reference decoder and compared with the real verdict and bytes, one-shot and through Stream.",
+         TB, "DESIGN.md section 4, C08"),
+ "C09": ("exploration", SIM + "seeded valid prefix + one illegal copy at chosen wrap-relative positions x window sizes, both window implementations; online prefix check of the sink",
+         "Window capacity and position relative to the wrap point are the knobs. A valid reference-encoded prefix followed by one out-of-window copy must yield Err, and the sink may only ever hold a prefix of what the valid prefix defines (no fabricated or stale bytes).",
+         TB, "DESIGN.md section 4, C09"),
+ "C10": ("exploration", SIM + "resource-limit injection: memlimit around the exact need x one-shot/Stream/raw, differential against the unlimited run, metering allocator",
+         "Native target (resource limit x streaming). Limits {0, need-1, need, need+1, dict-1, dict, max, random} are injected; at or above the need the run must equal the unlimited run, below it must fail with a model-prefix in the sink; heap peak bounded by the limit.",
+         TB, "DESIGN.md section 4, C10"),
+ "C11": ("exploration", SIM + "seeded payloads + trailing bytes x reader kinds (slice, Cursor, real BufReader over short reads, SimSource); reader position vs encoder-emitted length; chained decodes",
+         "Native target (reader position). After success the reader must sit exactly after the payload for every reader kind and refill pattern; two payloads are decoded back to back from one reader; whole-file decoders must refuse trailing bytes.",
+         TB, "DESIGN.md section 4, C11"),
+ "C12": ("fault_enumeration", SIM + "I/O fault enumeration: one fault (Other, WouldBlock, UnexpectedEof, EINTR, write-zero, disk-full, failing flush) at every source call / sink write / flush index; oracle = fired-fault-implies-Err + online prefix check",
+         "Native target. Every entry point (3 decoders, Stream, 2 raw decoders, 3 encoders) runs against a simulated source and sink; a fault-free pilot counts the calls, then a fault is injected at each call index (all indices in thorough, a sample in quick).",
+         TB + " Encoder expected output is the encoder's own fault-free output.", "DESIGN.md section 4, C12"),
+ "C13": ("exploration", SIM + "pairs of source scripts over the same bytes (all-at-once vs scripted refills / real BufReader of capacity 1..64 over short reads), differential",
+         "Native target. Valid and corrupted inputs of every format are decoded twice under different fragmentation; verdict, bytes and consumed count must agree.",
+         TB, "DESIGN.md section 4, C13"),
+ "C14": ("exploration", SIM + "history exploration on one reused raw decoder (decompress valid/corrupt, reset variants); model = a freshly constructed decoder",
+         "Native target (history on a reused object). After every reset the next decompress is compared with a fresh decoder (verdict, bytes, consumed count), including after decodes that failed half-way and across property changes.",
+         TB, "DESIGN.md section 4, C14"),
+ "C15": ("exploration", SIM + "crash-point exploration: upstream dies after every prefix length, histories over the prefix, allow_incomplete; online prefix oracle + lag bound from the reference encoder's per-symbol table",
+         "Native target (every crash point). Sink contents are compared online with the model; after finish the delivered length must cover all symbols ending >= 64 input bytes before the cut; every prefix is enumerated for a sample of streams.",
+         TB, "DESIGN.md section 4, C15"),
+ "C16": ("exploration", SIM + "history exploration: write/flush/get_output/finish sequences continuing after the first error and after completion; latch rules checked over the recorded history",
+         "Native target. Recorded (call, result, sink length) histories over valid, corrupted and over-long inputs are checked against the failure latch and the completion latch.",
+         TB, "DESIGN.md section 4, C16"),
+ "C17": ("fault_enumeration", SIM + "framing-field fault enumeration at every chunk (control byte, property byte, declared sizes, truncation); oracle = lenient reference LZMA2 decoder that knows exactly the listed rules",
+         "Partly a simulation target (corruption/truncation). Per seeded chunk sequence every framing field takes every boundary-violating value at every chunk (thorough: all values); what the lenient reference must reject, lzma-rs must reject.",
+         TB, "DESIGN.md section 4, C17"),
+ "C18": ("fault_enumeration", SIM + "stored-field substitution enumerated per file: every unsupported check ID, filter ID/chain, reserved bit, second stream, stream padding, with all CRCs consistent; oracle = must be Err",
+         "Partly a simulation target (stored-field substitution). Every unsupported feature is substituted into every seeded valid file with all CRCs, check sizes and SHA-256 values consistent; only Ok is a violation.",
+         TB, "DESIGN.md section 4, C18"),
 }
 
 PENDING_REASON = "check not built yet in this round (planned, see DESIGN.md section 4); not claimed until its machinery exists"
